@@ -321,130 +321,22 @@ func ruleSelf(c *Ctx) {
 						return
 					}
 				}
-				v := unwrapConv(st.Val)
-				tn := derefNamed(v.Type())
-				if phi, isPhi := v.(*ssa.Phi); isPhi && tn != nil && tn.Obj().Name() == "container" {
-					// an interface-typed local assigned one of several containers
-					n++
-					key := fmt.Sprintf("%s: root store #%d installs a container whose self is set", fname(fn), n)
-					bad := ""
-					for _, e := range phi.Edges {
-						al, isAl := unwrapConv(e).(*ssa.Alloc)
-						if !isAl {
-							bad = "one of the containers is " + describeValue(unwrapConv(e)) + ", not a literal"
-							continue
-						}
-						has := false
-						for _, ref := range *al.Referrers() {
-							if fa, ok := ref.(*ssa.FieldAddr); ok && fieldName(fa.X.Type(), fa.Field) == "self" {
-								for _, r2 := range *fa.Referrers() {
-									if s2, ok := r2.(*ssa.Store); ok && !isNilConst(s2.Val) {
-										has = true
-									}
-								}
-							}
-						}
-						if !has {
-							bad = "the " + typeShort(al.Type()) + " literal at " + b.posOf(al) + " does not set self"
-						}
-					}
-					if bad == "" {
-						l.add("R-SELF", "v5", key, b.posOf(st), Discharged, "every container that can be installed here is a literal that sets self", true)
-					} else {
-						l.add("R-SELF", "v5", key, b.posOf(st), Violated, bad+": the empty reference token then yields nothing, e.g. `add \"\" {…}` followed by `copy from \"\"` inserts null instead of a copy of the document", true)
-					}
-					return
-				}
-				if tn == nil || (tn.Obj().Name() != "partialDoc" && tn.Obj().Name() != "partialArray") {
+				srcs := b.rootSources(fn, st.Val, st)
+				if len(srcs) == 0 {
 					return
 				}
 				n++
 				key := fmt.Sprintf("%s: root store #%d installs a container whose self is set", fname(fn), n)
-				ok2 := false
-				// (a) a composite literal that sets self
-				if al, isAl := v.(*ssa.Alloc); isAl {
-					for _, ref := range *al.Referrers() {
-						if fa, ok := ref.(*ssa.FieldAddr); ok && fieldName(fa.X.Type(), fa.Field) == "self" {
-							for _, r2 := range *fa.Referrers() {
-								if s2, ok := r2.(*ssa.Store); ok && !isNilConst(s2.Val) {
-									ok2 = true
-								}
-							}
-						}
+				bad := ""
+				for _, src := range srcs {
+					if why := b.rootSourceHasSelf(src); why != "" {
+						bad = why
 					}
 				}
-				// (b) a store to <same container>.self dominates
-				allInstrs(fn, func(j ssa.Instruction) {
-					s2, ok := j.(*ssa.Store)
-					if !ok || isNilConst(s2.Val) {
-						return
-					}
-					fa, ok := s2.Addr.(*ssa.FieldAddr)
-					if !ok || fieldName(fa.X.Type(), fa.Field) != "self" {
-						return
-					}
-					same := fa.X == v
-					if b1, f1, ok1 := fieldLoad(fa.X); ok1 {
-						if b2, f2, ok2b := fieldLoad(v); ok2b && b1 == b2 && f1 == f2 {
-							same = true
-						}
-					}
-					if same && b.instrDominates(s2, st) {
-						ok2 = true
-					}
-					// the store is skipped only when the container itself is nil (the null root)
-					if same && !ok2 {
-						for _, bb := range fn.Blocks {
-							iff, isIf := bb.Instrs[len(bb.Instrs)-1].(*ssa.If)
-							if !isIf {
-								continue
-							}
-							x, nnTrue, isNil := nilTestOfCond(iff.Cond)
-							if !isNil {
-								continue
-							}
-							b1, f1, ok1 := fieldLoad(x)
-							b2, f2, ok2b := fieldLoad(v)
-							if !ok1 || !ok2b || b1 != b2 || f1 != f2 {
-								continue
-							}
-							nn := 1
-							if nnTrue {
-								nn = 0
-							}
-							if edgeDominates(bb, nn, s2.Block()) && bb.Dominates(st.Block()) {
-								ok2 = true
-							}
-						}
-					}
-				})
-				// (c) a phi of such values (the apply function's pd)
-				if phi, isPhi := v.(*ssa.Phi); isPhi {
-					all := true
-					for _, e := range phi.Edges {
-						al, isAl := unwrapConv(e).(*ssa.Alloc)
-						if !isAl {
-							all = false
-							continue
-						}
-						has := false
-						for _, ref := range *al.Referrers() {
-							if fa, ok := ref.(*ssa.FieldAddr); ok && fieldName(fa.X.Type(), fa.Field) == "self" {
-								has = true
-							}
-						}
-						if !has {
-							all = false
-						}
-					}
-					if all {
-						ok2 = true
-					}
-				}
-				if ok2 {
-					l.add("R-SELF", "v5", key, b.posOf(st), Discharged, "the installed container is a literal with self set, or its self is stored before it becomes the root", true)
+				if bad == "" {
+					l.add("R-SELF", "v5", key, b.posOf(st), Discharged, fmt.Sprintf("each of the %d container(s) that can be installed here is a literal with self set, or its self is stored before it becomes the root", len(srcs)), true)
 				} else {
-					l.add("R-SELF", "v5", key, b.posOf(st), Violated, "the container installed as the root has no self: the empty reference token then yields nothing, e.g. `replace \"\" {…}` followed by `copy from \"\"` inserts null instead of a copy of the document", true)
+					l.add("R-SELF", "v5", key, b.posOf(st), Violated, bad+": the empty reference token then yields nothing, e.g. `replace \"\" {…}` followed by `copy from \"\"` inserts null instead of a copy of the document", true)
 				}
 			})
 		}
@@ -480,4 +372,140 @@ func ruleSelf(c *Ctx) {
 	} else {
 		l.add("R-SELF", "v5", key, "", Discharged, fmt.Sprintf("%d load(s) of the field, each only compared with nil or dereferenced for its text", n), true)
 	}
+}
+
+// rootSource: one concrete container value that a root store can install, with the function
+// and the instruction (the store itself, or the return of a helper) at which it leaves.
+type rootSource struct {
+	fn *ssa.Function
+	v  ssa.Value
+	at ssa.Instruction
+}
+
+// rootSources resolves the value of a root store to the concrete container pointers behind
+// it: through phis, the interface conversion, and the results of library helpers.
+func (b *Body) rootSources(fn *ssa.Function, v ssa.Value, at ssa.Instruction) []rootSource {
+	var out []rootSource
+	type vk struct {
+		v  ssa.Value
+		at ssa.Instruction
+	}
+	seen := map[vk]bool{}
+	var walk func(fn *ssa.Function, v ssa.Value, at ssa.Instruction, depth int)
+	walk = func(fn *ssa.Function, v ssa.Value, at ssa.Instruction, depth int) {
+		if depth > 6 || seen[vk{v, at}] {
+			return
+		}
+		seen[vk{v, at}] = true
+		switch x := v.(type) {
+		case *ssa.Phi:
+			for _, e := range x.Edges {
+				walk(fn, e, at, depth)
+			}
+			return
+		case *ssa.MakeInterface:
+			walk(fn, x.X, at, depth)
+			return
+		case *ssa.ChangeInterface:
+			walk(fn, x.X, at, depth)
+			return
+		case *ssa.Extract:
+			if call, ok := x.Tuple.(*ssa.Call); ok {
+				if f := call.Call.StaticCallee(); f != nil && f.Pkg == b.Lib && len(f.Blocks) > 0 {
+					for _, r := range returnsOf(f) {
+						if x.Index < len(r.Results) {
+							walk(f, r.Results[x.Index], r, depth+1)
+						}
+					}
+					return
+				}
+			}
+		case *ssa.Call:
+			if f := x.Call.StaticCallee(); f != nil && f.Pkg == b.Lib && len(f.Blocks) > 0 {
+				for _, r := range returnsOf(f) {
+					if len(r.Results) > 0 {
+						walk(f, r.Results[0], r, depth+1)
+					}
+				}
+				return
+			}
+		case *ssa.Const:
+			if isNamed(x.Type(), "container") {
+				return // the nil interface next to an error
+			}
+		}
+		tn := derefNamed(v.Type())
+		if tn == nil || (tn.Obj().Name() != "partialDoc" && tn.Obj().Name() != "partialArray") {
+			return
+		}
+		out = append(out, rootSource{fn, v, at})
+	}
+	walk(fn, v, at, 0)
+	return out
+}
+
+// rootSourceHasSelf: "" when the container has its self set when it leaves at src.at.
+func (b *Body) rootSourceHasSelf(src rootSource) string {
+	fn, v, at := src.fn, src.v, src.at
+	// (a) a composite literal that sets self
+	if al, isAl := v.(*ssa.Alloc); isAl {
+		for _, ref := range *al.Referrers() {
+			if fa, ok := ref.(*ssa.FieldAddr); ok && fieldName(fa.X.Type(), fa.Field) == "self" {
+				for _, r2 := range *fa.Referrers() {
+					if s2, ok := r2.(*ssa.Store); ok && !isNilConst(s2.Val) {
+						return ""
+					}
+				}
+			}
+		}
+		return "the " + typeShort(al.Type()) + " literal at " + b.posOf(al) + " does not set self"
+	}
+	// (b) a store to <same container>.self dominates, or is skipped only when the container is nil
+	ok2 := false
+	sameAs := func(x ssa.Value) bool {
+		if x == v {
+			return true
+		}
+		if b1, f1, ok1 := fieldLoad(x); ok1 {
+			if b2, f2, ok2b := fieldLoad(v); ok2b && b1 == b2 && f1 == f2 {
+				return true
+			}
+		}
+		return false
+	}
+	allInstrs(fn, func(j ssa.Instruction) {
+		s2, ok := j.(*ssa.Store)
+		if !ok || isNilConst(s2.Val) || ok2 {
+			return
+		}
+		fa, ok := s2.Addr.(*ssa.FieldAddr)
+		if !ok || fieldName(fa.X.Type(), fa.Field) != "self" || !sameAs(fa.X) {
+			return
+		}
+		if b.instrDominates(s2, at) {
+			ok2 = true
+			return
+		}
+		for _, bb := range fn.Blocks {
+			iff, isIf := lastInstr(bb).(*ssa.If)
+			if !isIf {
+				continue
+			}
+			x, nnTrue, isNil := nilTestOfCond(iff.Cond)
+			if !isNil || !sameAs(x) {
+				continue
+			}
+			nn := 1
+			if nnTrue {
+				nn = 0
+			}
+			if edgeDominates(bb, nn, s2.Block()) && bb.Dominates(at.Block()) {
+				ok2 = true
+			}
+		}
+	})
+	if ok2 {
+		return ""
+	}
+	return "the container " + describeValue(v) + " leaving " + fname(fn) + " at " + b.posOf(at) + " has no self"
 }
